@@ -46,6 +46,8 @@ Agg(name, q, s) ==
 AggR(name, q, s) == LET e == Agg(name, q, s) IN IF IsQ(e) THEN e.v ELSE NaN
 AggIsZero(name, q, s) == IF name = "std" THEN (~HasNaN(s) /\ s # <<>> /\ VarSeq(s) = Zero) ELSE AggR(name, q, s) = Zero
 
+\* no value, no statistic: whichever statistic accumulates a slice without a valid case, the result is undefined (only a count is 0)
+EmptyIsUndefined == \A name \in (AggNames \cup {"quantile"}) \ {"count"} : Agg(name, Frac(9, 10), <<>>) = NaNE /\ Agg(name, Frac(9, 10), <<NaN>>) = NaNE
 \* ---- order relations (lemmas checked by TLC) ----
 OrderLemmas(s) ==
   (s # <<>> /\ ~HasNaN(s)) =>
